@@ -419,16 +419,23 @@ template <typename View, typename Value>
 BOOST_FORCEINLINE
 void fill_pixels(View const& view, Value const& value)
 {
+    // the per-plane std::fill applies only when the x-iterator itself is a planar iterator;
+    // step iterators over planar pixels (subsampled, flipped or transposed planar views) are filled pixel-wise
+    using is_planar_no_step = std::integral_constant
+        <
+            bool,
+            is_planar<View>::value && !iterator_is_step<typename View::x_iterator>::value
+        >;
     if (view.is_1d_traversable())
     {
         detail::fill_aux(
-            view.begin().x(), view.end().x(), value, is_planar<View>());
+            view.begin().x(), view.end().x(), value, is_planar_no_step());
     }
     else
     {
         for (std::ptrdiff_t y = 0; y < view.height(); ++y)
             detail::fill_aux(
-                view.row_begin(y), view.row_end(y), value, is_planar<View>());
+                view.row_begin(y), view.row_end(y), value, is_planar_no_step());
     }
 }
 
